@@ -159,6 +159,12 @@ def forced_cases():
                     ctl=["p0=5", "arm:w_logged:0:0", "start:0", "parked:w_logged:0", "arm:w_dropped:1:0", "start:1", "parked:w_dropped:1",
                          "g0", "g1", "s", "release:w_dropped:1", "sleep:20", "g1", "release:w_logged:0", "joinall", "final"],
                     progs=[["p0=100"], ["b0=200,1=201"]]))
+    # a later writer runs to its head wait while an earlier batch is paused between two of its inserts: the
+    # later write must not make anything visible (visible_seq_no moves only at the head)
+    out.append(dict(base, tag="later_writer_during_paused_batch", keys=4,
+                    ctl=["p2=1", "p3=2", "arm:w_insert:0:0", "start:0", "parked:w_insert:0", "start:1", "sleep:100", "s", "g0", "g2", "g3",
+                         "release:w_insert:0", "joinall", "final"],
+                    progs=[["b2=100,3=101"], ["p0=5"]]))
     # rollover while a writer of the old memtable is still inserting; reads through the immutable memtable
     out.append(dict(base, tag="rollover_during_insert", keys=4,
                     ctl=["p0=1", "p1=2", "arm:w_insert:0:0", "start:0", "parked:w_insert:0", "reqflush", "sleep:30", "s", "g0", "g1", "g2", "g3",
